@@ -64,6 +64,17 @@ CLAIMED = {
         tech=IRSX + "exact normal form, structural identity and interval analysis over atan2 range contracts", ref="4 C17"),
 }
 
+CLAIMED["C20"] = dict(
+    text="binary_interval_search: CBMC function contract (four documented cases, empty frame) and loop contract (inductive invariant, variant) on the C text "
+         "extracted from the header by must-fire rules, all n <= 4096, all values, incl. pointer/overflow safety. Basis matrices K = 0..10 (8 bases, cumulative "
+         "forms), monomial_integral and lgr_nodes 1..16 equal their mathematical definitions to 1e-9 in exact rational arithmetic on the compile-time constants; "
+         "monomial_derivative and lagrange_basis (K <= 3) symbolically exact; integrate_absolute_polynomial: break points are roots, result has the "
+         "alternating-sign form (lemma A5). Near-degenerate quadratic coefficients not decided.",
+    note="A3' (NaN-free elements: totally ordered abstraction) and IEEE sign facts of three stubbed sub-expressions; libstdc++ ranges::next transcription; "
+         "A5; A6 (clang constexpr evaluation, CBMC dfcc, minisat); n <= 4096.",
+    tech="CBMC 6.11 function+loop contracts (goto-instrument --dfcc, SAT) on mechanically extracted C; irsx + exact rational arithmetic for the constants "
+         "and symbolic utilities", ref="4 C20", cbmc=True)
+
 NOT_YET = {}
 
 
